@@ -40,6 +40,12 @@ func (SubsScenario) GenCase(r *rand.Rand, prop string) interface{} {
 	c.SvcName = pick(r, "test", "test", "test", "a.b", "")
 	c.Workers = pick(r, 1, 2, 4)
 	c.InCh = 1024
+	if chance(r, 30) {
+		// the same Service served twice; the second time possibly while the
+		// first Serve call is still on its way out
+		c.Epochs, c.MidStop = 2, []int{pick(r, -1, -1, 20, 60), -1}
+		c.OverlapServe = chance(r, 60)
+	}
 	// handlers: two literal resources and one parameterised, directly under
 	// the service name
 	kinds := r.IntN(4) // 0: resources+access, 1: only resource handlers, 2: only access, 3: both
@@ -132,12 +138,14 @@ func (SubsScenario) Execute(sim *sched.Sim, ci interface{}, prop string, race bo
 				e.H.Violate("C09", "invalid-subscription-subject", "", fmt.Sprintf("service %q subscribed to %q, which is not a valid NATS subject (client result: %v)", c.SvcName, s.Subject, err))
 			}
 		}
-		e.OnQuiescent = func(ep int) { e.checkSubs() }
+		e.OnQuiescent = func(ep int) { e.checkSubs(ep) }
 	})
 	if !race {
 		run.CheckLifecycle()
-		if run.E.Epochs[0].Started == 0 && !run.E.subsChecked {
-			run.E.checkSubs()
+		for ep, info := range run.E.Epochs {
+			if info.ServeInvoke != 0 && info.Started == 0 && !run.E.subsChecked[ep] && (ep == 0 || run.E.Epochs[ep-1].ShutdownReturn != 0) {
+				run.E.checkSubs(ep)
+			}
 		}
 	}
 	return run.Outcome(prop)
@@ -244,10 +252,13 @@ func probeNames(owned []string, svc string) []string {
 }
 
 // checkSubs is the C09 oracle.
-func (e *Engine) checkSubs() {
-	e.subsChecked = true
+func (e *Engine) checkSubs(ep int) {
+	if e.subsChecked == nil {
+		e.subsChecked = map[int]bool{}
+	}
+	e.subsChecked[ep] = true
 	c := e.Case
-	conn := e.Epochs[0].Conn
+	conn := e.Epochs[ep].Conn
 	resources, access := ownedModel(c)
 	resSet, accSet := setOf(resources), setOf(access)
 	// (3) system.reset content
@@ -262,7 +273,9 @@ func (e *Engine) checkSubs() {
 	nreset := 0
 	for i, p := range pubs {
 		if p.Subject != "system.reset" {
-			if i == 0 {
+			if i == 0 && len(e.Epochs) == 1 {
+				// (with one epoch the peer is held back until the service
+				// has announced itself)
 				e.H.Violate("C09", "first-message-not-reset", "", fmt.Sprintf("first message of the epoch is %s", p.Subject))
 			}
 			continue
@@ -281,7 +294,7 @@ func (e *Engine) checkSubs() {
 			e.H.Violate("C09", "reset-content", "", fmt.Sprintf("service %q owned=%v: system.reset announced resources=%v access=%v, expected resources=%v access=%v", c.SvcName, c.Owned, ev.Resources, ev.Access, resSet, accSet))
 		}
 	}
-	if e.Epochs[0].Started == 0 || nreset == 0 {
+	if e.Epochs[ep].Started == 0 || nreset == 0 {
 		// the service did not come up although it owns something
 		e.H.Violate("C09", "service-did-not-start", "", fmt.Sprintf("service %q owned=%v (model: resources=%v access=%v) never announced itself; subscribe errors=%d, log=%v", c.SvcName, c.Owned, resSet, accSet, conn.Stats.SubErrors, e.errorLog()))
 		return
@@ -324,7 +337,11 @@ func (e *Engine) checkSubs() {
 		}
 	}
 	for _, s := range e.Subs {
-		if s == nil || s.Kind != "req" || s.Invoke == 0 {
+		if s == nil || s.Kind != "req" || s.Invoke == 0 || s.Epoch != ep {
+			continue
+		}
+		if s.Routed == 0 && len(e.Epochs) > 1 {
+			// sent while the service was down between two epochs
 			continue
 		}
 		rtype, rname, _ := SplitSubject(s.Op.Subject)
